@@ -8,6 +8,7 @@ mod dec;
 mod e1;
 mod families;
 mod fw;
+mod iterp;
 mod model;
 mod props;
 mod q;
